@@ -431,6 +431,15 @@ def check_gc(ctx, f, gcs, judged, k):
         run.check(tuple(tab) == want, 'R-ORD', f, role, nd.lineno, 'rejects only strictly outside the bound',
                   '%s rejects with table %s for count<bound, =, >; required %s (bounds are inclusive)' % (role, tuple(tab), want),
                   extracted=[str(x) for x in tab], inputs='windows whose count sits exactly on the bound')
+    # a recognised deviation: a GC bound truncated to an integer (int(fraction * k) rounds the lower bound down)
+    cls_txt = ast.unparse(f.cls if f.cls is not None else f.node)
+    for n_ in ast.walk(f.cls if f.cls is not None else f.node):
+        if isinstance(n_, ast.Call) and isinstance(n_.func, ast.Name) and n_.func.id == 'int' and n_.args and \
+                'gc_range' in ast.unparse(n_.args[0]):
+            run.refute('R-FILTER', f, 'gc-bound-truncated', n_.lineno,
+                       'a GC bound is computed as %s: truncating fraction x window rounds the lower bound down, so windows with '
+                       'too little GC are accepted whenever the product is not an integer' % ast.unparse(n_)[:60],
+                       inputs='observed_length x gc_range[0] not an integer, e.g. L=5 with [0.5, 0.7]')
     gc_uses = ast.unparse(f.cls if f.cls is not None else f.node).split('def valid', 1)[-1].count('gc_range')
     _tri(run, n['window'] >= 2 and n['short'] >= 2, gc_uses < 4, 'R-FILTER', f, 'gc-tests-present', f.node.lineno,
               'two GC tests on windows and two on short strings',
